@@ -5,10 +5,11 @@ import SymmModel.Driver.TruncH
 import SymmModel.Driver.FermiOpsH
 import SymmModel.Driver.ReshapeH
 import SymmModel.Driver.CacheH
+import SymmModel.Driver.HeapH
 open Lean SymmModel.Driver
 
 /-- plug-in handlers of the self-contained property models are tried in order -/
-def handlers : List (String → Json → Option (D Json)) := [handleCore, handleSym, handleHam, handleTrunc, handleFermiOps, handleReshape, handleCache]
+def handlers : List (String → Json → Option (D Json)) := [handleCore, handleSym, handleHam, handleTrunc, handleFermiOps, handleReshape, handleCache, handleHeap]
 
 def handleLine (line : String) : Json :=
   match Json.parse line with
